@@ -259,6 +259,14 @@ class Sim:
                                                 (35, 36, 37, 45, r.randint(0, 90)), (46, 47, 48, 56, r.randint(0, 90))):
                 mb = D.place(mb, st_, st_, 1)
                 mb = D.place(mb, first, last, val)
+        elif kind == "both":
+            # a payload that satisfies the BDS 5,0 and the BDS 6,0 layout at once (roll = heading, track = IAS, GS = Mach, TAS = inertial rate, all inside both envelopes):
+            # infer() names both registers and the decoder has to cope with the ambiguity, whatever it knows about the aircraft at that moment
+            g = r.randint(100, 180)
+            mb = 0
+            for (st_, first, last, val) in ((1, 3, 11, r.randint(0, 200)), (12, 12, 12, 1), (13, 14, 23, r.randint(150, 450)), (24, 25, 34, g),
+                                            (35, 37, 45, r.randint(0, 60)), (46, 48, 56, r.randint(max(50, g - 60), min(187, g + 60)))):
+                mb = D.place(D.place(mb, st_, st_, 1), first, last, val)
         elif kind == "bds30":
             # ACAS resolution advisory report naming a threat by its 24-bit address (TTI = 1): another tracked aircraft, the sender itself, or anyone
             keys = sorted(self.acs)
@@ -601,7 +609,7 @@ class Machine(RuleBasedStateMachine):
     def status(self, idx, kind, seed):
         self.do("status", idx, kind, seed)
 
-    @rule(who=st.sampled_from(["known", "known", "noise", "unknown", "related", "related"]), idx=IDX, kind=st.sampled_from(["bds50", "bds50", "bds60", "bds44", "random", "bds30", "bds30"]), seed=SEED,
+    @rule(who=st.sampled_from(["known", "known", "noise", "unknown", "related", "related"]), idx=IDX, kind=st.sampled_from(["bds50", "bds50", "bds60", "bds44", "random", "bds30", "bds30", "both", "both"]), seed=SEED,
           df=st.sampled_from([20, 21]))
     def commb(self, who, idx, kind, seed, df):
         self.do("commb", who, idx, kind, seed, df)
@@ -715,7 +723,7 @@ def fuzz_decode(fdp):
             steps.append(["status", [idx, ["tss", "ops", "emerg"][fdp.ConsumeIntInRange(0, 2)], fdp.ConsumeIntInRange(0, (1 << 32) - 1)]])
         elif op in (10, 11):
             steps.append(["commb", [["known", "noise", "unknown", "related"][fdp.ConsumeIntInRange(0, 3)], idx,
-                                    ["bds50", "bds60", "bds44", "random", "bds30"][fdp.ConsumeIntInRange(0, 4)], fdp.ConsumeIntInRange(0, (1 << 32) - 1), 20 + fdp.ConsumeIntInRange(0, 1)]])
+                                    ["bds50", "bds60", "bds44", "random", "bds30", "both"][fdp.ConsumeIntInRange(0, 5)], fdp.ConsumeIntInRange(0, (1 << 32) - 1), 20 + fdp.ConsumeIntInRange(0, 1)]])
         elif op == 12:
             steps.append(["noise", [idx, 17 + fdp.ConsumeIntInRange(0, 1), fdp.ConsumeIntInRange(0, (1 << 32) - 1)]])
         elif op == 13:
